@@ -80,7 +80,7 @@ def run_history(case):
                     pass
             elif op[0] == "render":
                 name = J.subst(op[1], world)
-                ctx = dict(op[2])
+                ctx = J.dec_ctx(op[2])
                 out_engine.append(_observe(lambda: engine.render(name, dict(ctx))))
                 fresh = Engine(dict(config))
                 out_fresh.append(_observe(lambda: fresh.render(name, dict(ctx))))
